@@ -12,6 +12,17 @@ import warnings
 warnings.simplefilter('ignore')
 
 
+def _plain(o):
+    # a NumPy scalar that leaked into an observation (e.g. a shape entry) is reported by value
+    item = getattr(o, 'item', None)
+    if callable(item):
+        try:
+            return item()
+        except Exception:
+            pass
+    return str(o)
+
+
 def main():
     pid, func, fin, fout = sys.argv[1:5]
     mod = importlib.import_module(f'impl_{pid}')
@@ -30,8 +41,8 @@ def main():
                             'tb': traceback.format_exc()[-1500:]})
             shutil.rmtree(d, ignore_errors=True)
             if i % 50 == 49:
-                json.dump(out, open(fout, 'w'))
-        json.dump(out, open(fout, 'w'))
+                json.dump(out, open(fout, 'w'), default=_plain)
+        json.dump(out, open(fout, 'w'), default=_plain)
     finally:
         shutil.rmtree(tmp, ignore_errors=True)
 
